@@ -288,6 +288,12 @@ def run(ctx):
                             facts.fns_matching(r"watchexec_signals::Signal as core::str::traits::FromStr>::from_str$"))
         wcalls = call_sites(fs, "Signal::from_windows_str")
         ctx.require(len(wcalls) == 1, "R19.4", "fromstr-windows-first", "from_str calls from_windows_str first", fs.loc(fs.line))
+        from .. import pathx as _px194
+        top194 = _px194.desc(thir.peel(thir.root(fs)))
+        inner194 = [_px194.desc(thir.peel(thir.root(c))) for c in facts.children(fs) if c.kind == "closure"]
+        ctx.require(top194 == "Result::or_else(Signal::from_windows_str(s), closure)" and any(d.startswith("Result::map_err(Signal::from_unix_str(^s)") for d in inner194), "R19.4",
+                    "fromstr-passes-input", "both parsers get the input string itself", fs.loc(fs.line), detail="%s / %s" % (top194, inner194[:2]),
+                    fail="Signal::from_str hands a rewritten string to one of the two name tables (%s): a prefix-stripped unix name can land on a Windows control name (SIGSTOP -> STOP -> ForceStop)" % top194)
         ucalls = []
         for c in [fs] + facts.descendants(fs):
             ctx.saw_fn(c)
